@@ -54,6 +54,22 @@ pub fn run(out: &mut Out, tier: &str, rng: &mut Rng) {
             }
         }
     }
+    // the hostile corpus shared by the session family inside an armed (and an unarmed) session, then the death
+    for (i, h) in hostile_corpus(rng).into_iter().enumerate() {
+        let armed = if i % 4 == 3 { 0x00u8 } else { 0x10 };
+        let mut st = session_frame(armed, "h").bytes;
+        st.extend(sess::frame(0x20, &[0x05, 0x00, 0x64]));
+        st.extend(&h.bytes);
+        st.extend(sess::frame(0x45, &[0x1E, 1]));
+        sess::run_case(out, &inst, "sess", &[Ev::Bytes(st), Ev::Close(*rng.pick(&Close::ALL))], armed != 0);
+        out.count(&format!("hostile corpus: {}", h.class));
+        // the corpus frame as the registration itself (a failsafe registration at the size limit is a registration)
+        if h.class == "at-size-limit" && h.bytes[4] == 0x10 {
+            let mut st = h.bytes.clone();
+            st.extend(sess::frame(0x20, &[0x05, 0x00, 0x64]));
+            sess::run_case(out, &inst, "sess", &[Ev::Bytes(st), Ev::Close(*rng.pick(&Close::ALL))], true);
+        }
+    }
     let n_streams = if thorough { 1500 } else { 120 };
     let maxf = if thorough { 5 } else { 3 };
     for _ in 0..n_streams {
